@@ -219,14 +219,20 @@ SLOT_OPTIONS = {
 }
 
 
-def slot_cubes(nslots, options, first=None, prefix="s", extra=None):
-    """yield (name, layer) for every combination of per-slot options (`first` optionally restricts slot 0)"""
+def slot_cubes(nslots, options, first=None, prefix="s", extra=None, defaults=None, table=None):
+    """yield (name, layer) for every combination of per-slot options (`first` optionally restricts slot 0);
+    `defaults` = per-slot input suffix -> value pinned when the option does not set it; `table` adds/overrides options"""
     import itertools
+    opts = dict(SLOT_OPTIONS)
+    if table:
+        opts.update(table)
     pools = [list(first) if (first and i == 0) else list(options) for i in range(nslots)]
     for combo in itertools.product(*pools):
         layer = {}
         for i, o in enumerate(combo):
-            for key, val in SLOT_OPTIONS[o].items():
+            for key, val in (defaults or {}).items():
+                layer[f"{prefix}{i}_{key}"] = val
+            for key, val in opts[o].items():
                 layer[f"{prefix}{i}_{key}"] = val
         if extra:
             layer.update(extra)
